@@ -30,7 +30,9 @@ from .props_c08 import RULE_OF_CLASS
 RULE = dict(RULE_OF_CLASS, GrammarError="syntax", LexerError="lex", InvalidEscapingChar="invalid-escape",
             UnsupportedToDeclareProtoNameOutofProtoScope="proto-in-scope", ProtoNameUndefined="proto-name-undefined",
             MessageInEnumUnsupported="message-in-enum")
-SYNTACTIC = {"syntax", "lex", "invalid-escape", "os-error", "proto-name-undefined"}
+# rules raised by the lexer or the grammar: when they are reported relative to a semantic error of a NEIGHBOURING statement
+# depends on the automaton's lookahead (`uint65` is a lexical error: the type token validates its width)
+SYNTACTIC = {"syntax", "lex", "invalid-escape", "os-error", "proto-name-undefined", "invalid-int-width", "invalid-uint-width"}
 
 
 def work(job: Tuple[int, Dict[str, bytes], str]) -> Tuple[int, Tuple]:
